@@ -17,7 +17,7 @@ RULE = ("dies 1..1000 (square to 25:1, with fixed regions) and netlists of 2-8 m
 ASSUMPTIONS = [
     "every module has a centre inside the die (border included), as the quantifier states",
     "fixed centres compared with 1e-9 x die size (the code re-centres by (c-h)+h: a 1-ulp drift is not a move); containment with 1e-12 relative slack",
-    "trial costs are recomputed by the harness with the repository's own total_intersection_area and wire_length",
+    "trial costs (total pairwise disc overlap + half the wire length) are recomputed by the harness independently of the library",
 ]
 CASES = {"quick": 1600, "thorough": 250000}
 MIN_CASES = {"quick": 150, "thorough": 4000}
@@ -37,7 +37,7 @@ def setup(ctx):
         res = orig(die, kappa, verbose, visualize, max_iter)
         d = res[0]
         try:
-            cost = fr.total_intersection_area(d) + independent_wire_length(d.netlist) / 2
+            cost = independent_overlap(d.netlist) + independent_wire_length(d.netlist) / 2
         except Exception as e:  # noqa
             cost = repr(e)
         _trials.append({"kappa": kappa, "cost": cost, "centres": [(m.center.x, m.center.y) for m in d.netlist.modules], "same_object": d is die})
@@ -56,6 +56,27 @@ def independent_wire_length(nl):
         mx, my = sum(c[0] for c in cs) / len(cs), sum(c[1] for c in cs) / len(cs)
         total += e.weight * sum(math.hypot(c[0] - mx, c[1] - my) for c in cs)
     return total
+
+
+def independent_overlap(nl):
+    """total pairwise disc overlap (every ordered pair of different modules, discs of the modules' areas) by the lens formula, computed
+    by the harness"""
+    def lens(x1, y1, r1, x2, y2, r2):
+        d = math.hypot(x1 - x2, y1 - y2)
+        if d >= r1 + r2:
+            return 0.0
+        if d <= abs(r1 - r2):
+            return math.pi * min(r1, r2) ** 2
+        a = math.acos(max(-1.0, min(1.0, (r1 * r1 + d * d - r2 * r2) / (2 * r1 * d))))
+        b = math.acos(max(-1.0, min(1.0, (r2 * r2 + d * d - r1 * r1) / (2 * r2 * d))))
+        return r1 * r1 * a + r2 * r2 * b - d * r1 * math.sin(a)
+    ms = [(m.center.x, m.center.y, math.sqrt(m.area() / math.pi)) for m in nl.modules]
+    tot = 0.0
+    for i_, a in enumerate(ms):
+        for j_, b in enumerate(ms):
+            if i_ != j_:
+                tot += lens(*a, *b)
+    return tot
 
 
 def generate(rng, tier, i):
